@@ -293,6 +293,10 @@ class Piece:
 
 
 def _apply_rewrites(text: str, rws: List[Rw], unit: str, log: list) -> str:
+    # logging never carries semantics for a property: log macros are removed from every body even if a unit does not
+    # list R-log (a log line added by an edit must not make the unit leave the verifiable subset)
+    if rws is not None and not any(r.sig for r in rws) and not any(r.kind == "log" for r in rws):
+        rws = list(rws) + [Rw("", "", count=None, kind="log", why="logging removed (default)")]
     for rw in rws:
         if rw.kind in ("err", "log", "attrs", "maperr", "letchain", "dropargs", "fold"):
             if rw.kind == "fold":
